@@ -77,7 +77,10 @@ pub fn is_sqpoll(bits: u32) -> bool {
 
 pub struct RingState {
     pub uring: Option<IoUring>,
+    /// requested size
     pub entries: u32,
+    /// SQ slots the kernel allocated for that request (next power of two)
+    pub kernel_entries: u32,
     pub flags: u32,
     pub fixed: FixedArea,
     /// submissions made on this ring so far
@@ -114,7 +117,7 @@ impl Shard {
         assert!(reg_fd >= 0);
         let fixed_mem = unsafe { libc::mmap(std::ptr::null_mut(), 4096, libc::PROT_READ | libc::PROT_WRITE, libc::MAP_PRIVATE | libc::MAP_ANONYMOUS, -1, 0) };
         assert!(fixed_mem != libc::MAP_FAILED);
-        Shard { base, reg_fd, fixed_mem: fixed_mem as *mut u8, case_no: 0, seq: 0, watchdog_s: 120 }
+        Shard { base, reg_fd, fixed_mem: fixed_mem as *mut u8, case_no: 0, seq: 0, watchdog_s: 30 }
     }
     pub fn finish(self) {
         unsafe {
@@ -139,7 +142,8 @@ impl Shard {
         if let Err(e) = io_uring_register_files(uring.fd, &[fd_of(self.reg_fd)]) {
             return Err(format!("register files: {e}"));
         }
-        Ok(RingState { uring: Some(uring), entries, flags, fixed, submitted: 0, rings_made: 1 })
+        let kernel_entries = ops_raw::kernel_ring_entries(entries).map(|x| x.0).unwrap_or_else(|| entries.next_power_of_two());
+        Ok(RingState { uring: Some(uring), entries, kernel_entries, flags, fixed, submitted: 0, rings_made: 1 })
     }
 }
 
